@@ -1,7 +1,404 @@
-//! mvh_tex — not built yet.
+//! Textures (C19 pixel decoding, C20 texture containers).
+//!
+//!   replay  <cases.ndjson> <out.ndjson>       C19 spec->impl: cases printed by Gen_Pixel / Gen_Etc1
+//!                                              (input + lowest/highest allowed output bytes)
+//!   record  <templates.ndjson> <out.ndjson>   C19 impl->spec: payloads (position, all 16-bit values, byte
+//!                                              lanes, random) put into the container templates printed by
+//!                                              Gen_Pixel, decoded by mila, logged for Trace_Pixel
+//!   readers <cases.ndjson> <out.ndjson> <trace.ndjson> [--from K]
+//!                                              C20: files printed by Gen_TexContainers read in full, on every
+//!                                              strict prefix and with a damaged magic number (isolated
+//!                                              protocol); reader outputs logged for Trace_TexContainers
+//!
+//! No decoding rule lives here: this file builds inputs, calls mila and compares with / logs for the spec.
+use mila::{ColorFormat, Texture};
 use mvh::util::*;
+use serde_json::{json, Value};
+
+// ------------------------------------------------------------------------------------------------ calls
+#[derive(Clone)]
+enum Out {
+    Ok(Vec<Tex>),
+    Err(String),
+    Panic(String),
+}
+#[derive(Clone)]
+struct Tex {
+    name: String,
+    w: usize,
+    h: usize,
+    px: Vec<u8>,
+}
+fn conv(t: Vec<Texture>) -> Vec<Tex> {
+    t.into_iter().map(|t| Tex { name: t.filename, w: t.width, h: t.height, px: t.pixel_data }).collect()
+}
+fn read_container(c: &str, file: &[u8]) -> Out {
+    let r = catch(|| match c {
+        "ctpk" => mila::ctpk::read(file).map(conv).map_err(|e| format!("{:?}", e)),
+        "bch" => mila::bch::read(file).map(conv).map_err(|e| format!("{:?}", e)),
+        "cgfx" => mila::cgfx::read(file).map(conv).map_err(|e| format!("{:?}", e)),
+        "tpl" => mila::tpl::Tpl::extract_textures(file).map(conv).map_err(|e| format!("{:?}", e)),
+        _ => usage("container: ctpk|bch|cgfx|tpl"),
+    });
+    match r {
+        Ok(Ok(t)) => Out::Ok(t),
+        Ok(Err(e)) => Out::Err(e),
+        Err(p) => Out::Panic(p),
+    }
+}
+/// (ok, pixels, err) of a call that must yield exactly one w x h image
+fn single(o: Out, w: usize, h: usize) -> (bool, Vec<u8>, String) {
+    match o {
+        Out::Ok(t) => {
+            if t.len() != 1 {
+                (false, vec![], format!("{} textures returned", t.len()))
+            } else if t[0].w != w || t[0].h != h {
+                (false, vec![], format!("dimensions {}x{} returned", t[0].w, t[0].h))
+            } else {
+                (true, t[0].px.clone(), String::new())
+            }
+        }
+        Out::Err(e) => (false, vec![], format!("Err({})", e)),
+        Out::Panic(p) => (false, vec![], format!("panic {}", p)),
+    }
+}
+fn raw(r: Result<Result<Vec<u8>, String>, String>) -> (bool, Vec<u8>, String) {
+    match r {
+        Ok(Ok(p)) => (true, p, String::new()),
+        Ok(Err(e)) => (false, vec![], format!("Err({})", e)),
+        Err(p) => (false, vec![], format!("panic {}", p)),
+    }
+}
+fn etc_decode(payload: &[u8], w: usize, h: usize, alpha: bool) -> (bool, Vec<u8>, String) {
+    raw(catch(|| mila::decode(payload, w, h, alpha).map_err(|e| format!("{:?}", e))))
+}
+fn rgb5a3_decode(payload: &[u8]) -> (bool, Vec<u8>, String) {
+    raw(catch(|| ColorFormat::RGB5A3.decode(payload).map_err(|e| format!("{:?}", e))))
+}
+fn indexed_decode(idx: &[u8], rgba: &[u8]) -> (bool, Vec<u8>, String) {
+    raw(catch(|| ColorFormat::CI8.decode_indexed(idx, rgba).map_err(|e| format!("{:?}", e))))
+}
+
+fn u(v: &Value) -> usize {
+    v.as_u64().expect("number") as usize
+}
+
+// ------------------------------------------------------------------------------------------------ replay
+/// first index at which got is outside [lo, hi] (or the length differs)
+fn first_bad(got: &[u8], lo: &[u8], hi: &[u8]) -> Option<usize> {
+    if got.len() != lo.len() {
+        return Some(got.len().min(lo.len()));
+    }
+    (0..got.len()).find(|&k| got[k] < lo[k] || got[k] > hi[k])
+}
+
+fn replay(cases_path: &str, out_path: &str) {
+    let cases = read_ndjson(cases_path);
+    let mut out = NdWriter::create(out_path);
+    let mut bytes = 0usize;
+    let mut calls = 0usize;
+    for (n, c) in cases.iter().enumerate() {
+        let api = c["api"].as_str().unwrap();
+        let (w, h, fmt) = (u(&c["w"]), u(&c["h"]), u(&c["fmt"]));
+        let payload = json_to_bytes(&c["payload"]);
+        let file = json_to_bytes(&c["file"]);
+        let lo = json_to_bytes(&c["lo"]);
+        let hi = json_to_bytes(&c["hi"]);
+        let mut runs: Vec<(&str, (bool, Vec<u8>, String))> = Vec::new();
+        match api {
+            "ctpk" => runs.push(("ctpk::read", single(read_container("ctpk", &file), w, h))),
+            "etc" => {
+                runs.push(("ctpk::read", single(read_container("ctpk", &file), w, h)));
+                runs.push(("mila::decode", etc_decode(&payload, w, h, fmt == 13)));
+            }
+            "tpl" => runs.push(("Tpl::extract_textures", single(read_container("tpl", &file), w, h))),
+            "rgb5a3" => runs.push(("ColorFormat::decode", rgb5a3_decode(&payload))),
+            _ => usage("case api: ctpk|etc|tpl|rgb5a3"),
+        }
+        for (via, (ok, px, err)) in runs {
+            calls += 1;
+            bytes += lo.len();
+            let bad = if ok { first_bad(&px, &lo, &hi) } else { Some(0) };
+            if let Some(k) = bad {
+                let p = k / 4;
+                out.put(&json!({"kind": "mismatch", "case": n, "api": api, "via": via, "fmt": fmt, "w": w, "h": h,
+                    "ok": ok, "err": err, "at": k, "x": if w > 0 { p % w } else { 0 }, "y": if w > 0 { p / w } else { 0 }, "channel": k % 4,
+                    "got": px.get(k).map(|b| *b as i64).unwrap_or(-1),
+                    "lo": lo.get(k).map(|b| *b as i64).unwrap_or(-1), "hi": hi.get(k).map(|b| *b as i64).unwrap_or(-1),
+                    "got_len": px.len(), "want_len": lo.len()}));
+            }
+        }
+    }
+    out.put(&json!({"kind": "summary", "cases": cases.len(), "calls": calls, "bytes": bytes}));
+    out.finish();
+}
+
+// ------------------------------------------------------------------------------------------------ record
+fn bpp(fmt: usize) -> usize {
+    // storage size of the formats of the statement, needed to size the inputs
+    match fmt {
+        0 => 4,
+        2..=5 => 2,
+        _ => 1,
+    }
+}
+fn is_etc(fmt: usize) -> bool {
+    fmt == 12 || fmt == 13
+}
+/// Random ETC payload restricted to the domain of the ETC1 rules: a differential block whose base + delta
+/// would leave 0..31 in some channel gets that delta cleared.  (Trace_Pixel counts blocks outside the
+/// domain - "open" - so a mistake here shows up there, not as a wrong verdict.)
+fn random_etc(rng: &mut Rng, w: usize, h: usize, alpha: bool) -> Vec<u8> {
+    let blocks = (w / 4) * (h / 4);
+    let mut out = Vec::new();
+    for _ in 0..blocks {
+        if alpha {
+            out.extend(rng.bytes(8));
+        }
+        let mut b = rng.bytes(8);
+        match rng.below(8) {
+            0 => b[4] |= 2,
+            1 => b[4] &= !2,
+            _ => {}
+        }
+        if b[4] & 2 != 0 {
+            for k in 5..8 {
+                let base = (b[k] >> 3) as i32;
+                let d = (b[k] & 7) as i32;
+                let d = if d >= 4 { d - 8 } else { d };
+                if base + d < 0 || base + d > 31 {
+                    b[k] &= 0xF8;
+                }
+            }
+        }
+        out.extend(b);
+    }
+    out
+}
+
+struct Recorder {
+    out: NdWriter,
+    n: usize,
+}
+impl Recorder {
+    #[allow(clippy::too_many_arguments)]
+    fn ev(&mut self, kind: &str, api: &str, gen: &str, fmt: usize, w: usize, h: usize, payload: &[u8], pal: &[u8], r: (bool, Vec<u8>, String)) {
+        self.out.put(&json!({"kind": kind, "api": api, "gen": gen, "fmt": fmt, "w": w, "h": h,
+            "payload": bytes_to_json(payload), "pal": bytes_to_json(pal),
+            "ok": r.0, "pixels": bytes_to_json(&r.1), "err": r.2}));
+        self.n += 1;
+    }
+}
+
+fn record(templates_path: &str, out_path: &str) {
+    let templates = read_ndjson(templates_path);
+    let mut rng = Rng::new(seed_from_env());
+    let quick = tier_is_quick();
+    let n_rand = if quick { 1 } else { 3 };
+    let mut rec = Recorder { out: NdWriter::create(out_path), n: 0 };
+    let max_side = templates.iter().filter(|t| t["kind"] == "ctpk").map(|t| u(&t["w"]) * u(&t["h"])).max().unwrap_or(0);
+    for t in &templates {
+        match t["kind"].as_str().unwrap() {
+            "ctpk" => {
+                let (fmt, w, h) = (u(&t["fmt"]), u(&t["w"]), u(&t["h"]));
+                let head = json_to_bytes(&t["head"]);
+                let run = |payload: &[u8]| {
+                    let mut f = head.clone();
+                    f.extend_from_slice(payload);
+                    single(read_container("ctpk", &f), w, h)
+                };
+                if is_etc(fmt) {
+                    for _ in 0..n_rand {
+                        let p = random_etc(&mut rng, w, h, fmt == 13);
+                        rec.ev("tex", "ctpk", "random", fmt, w, h, &p, &[], run(&p));
+                        let p = random_etc(&mut rng, w, h, fmt == 13);
+                        rec.ev("tex", "decode", "random", fmt, w, h, &p, &[], etc_decode(&p, w, h, fmt == 13));
+                    }
+                    continue;
+                }
+                let b = bpp(fmt);
+                // position: pixel i carries the value i
+                let mut p = Vec::with_capacity(w * h * b);
+                for i in 0..w * h {
+                    p.extend_from_slice(&(i as u32).to_le_bytes()[..b]);
+                }
+                rec.ev("tex", "ctpk", "position", fmt, w, h, &p, &[], run(&p));
+                // byte lanes (RGBA8): one lane varies with the position, the others are constant
+                if b == 4 {
+                    for lane in 0..4 {
+                        let mut p = Vec::with_capacity(w * h * 4);
+                        for i in 0..w * h {
+                            let mut px = [0x10u8, 0x50, 0x90, 0xD0];
+                            px.rotate_left(lane);
+                            px[lane] = (i * 37 + lane * 11) as u8;
+                            p.extend_from_slice(&px);
+                        }
+                        rec.ev("tex", "ctpk", "lane", fmt, w, h, &p, &[], run(&p));
+                    }
+                }
+                // every 16-bit value, on the largest template
+                if b == 2 && w * h == max_side {
+                    let per = w * h;
+                    let mut v = 0usize;
+                    while v < 65536 {
+                        let mut p = Vec::with_capacity(per * 2);
+                        for i in 0..per {
+                            p.extend_from_slice(&(((v + i) % 65536) as u16).to_le_bytes());
+                        }
+                        rec.ev("tex", "ctpk", "all16", fmt, w, h, &p, &[], run(&p));
+                        v += per;
+                    }
+                }
+                for _ in 0..n_rand {
+                    let p = rng.bytes(w * h * b);
+                    rec.ev("tex", "ctpk", "random", fmt, w, h, &p, &[], run(&p));
+                }
+            }
+            "tpl" => {
+                let (w, h, npal) = (u(&t["w"]), u(&t["h"]), u(&t["npal"]));
+                let (pal_at, img_at, img_len) = (u(&t["pal_at"]), u(&t["img_at"]), u(&t["img_len"]));
+                let mut f = json_to_bytes(&t["file"]);
+                for _ in 0..n_rand {
+                    let pal = rng.bytes(2 * npal);
+                    let img: Vec<u8> = (0..img_len).map(|_| rng.below(npal) as u8).collect();
+                    f[pal_at..pal_at + pal.len()].copy_from_slice(&pal);
+                    f[img_at..img_at + img_len].copy_from_slice(&img);
+                    rec.ev("ci8", "tpl", "random", 100, w, h, &img, &pal, single(read_container("tpl", &f), w, h));
+                }
+            }
+            _ => usage("template kind: ctpk|tpl"),
+        }
+    }
+    // RGB5A3: every 16-bit value, then random runs
+    for chunk in 0..4usize {
+        let mut p = Vec::with_capacity(32768);
+        for v in chunk * 16384..(chunk + 1) * 16384 {
+            p.extend_from_slice(&(v as u16).to_be_bytes());
+        }
+        rec.ev("rgb5a3", "decode", "all16", 101, 16384, 1, &p, &[], rgb5a3_decode(&p));
+    }
+    for _ in 0..n_rand {
+        let n = rng.range(1, 2000);
+        let p = rng.bytes(2 * n);
+        rec.ev("rgb5a3", "decode", "random", 101, n, 1, &p, &[], rgb5a3_decode(&p));
+    }
+    // palette look-up on linear indices
+    for _ in 0..(4 * n_rand) {
+        let npal = rng.range(1, 256);
+        let n = rng.range(0, 600);
+        let rgba = rng.bytes(4 * npal);
+        let idx: Vec<u8> = (0..n).map(|_| rng.below(npal) as u8).collect();
+        rec.ev("indexed", "decode_indexed", "random", 100, n, 1, &idx, &rgba, indexed_decode(&idx, &rgba));
+    }
+    let n = rec.n;
+    rec.out.finish();
+    println!("{}", json!({"events": n}));
+}
+
+// ------------------------------------------------------------------------------------------------ readers (C20)
+fn names_dims(t: &[Tex]) -> Value {
+    Value::Array(t.iter().map(|t| json!({"name": str_to_codes(&t.name), "w": t.w, "h": t.h})).collect())
+}
+
+/// One case = one generated file: {id, c, v, file, exp:[{name,w,h}], min_ok, magic}.
+/// Result: the full reading compared with exp; the outcome class of every strict prefix compared with
+/// min_ok (a prefix shorter than min_ok must be an error, none may panic); where `magic`, a damaged magic
+/// number must be an error.  Second value: the trace line {id, c, v, ok, out} for Trace_TexContainers.
+fn readers_case(c: &Value) -> (Value, Value) {
+    let cont = c["c"].as_str().unwrap();
+    let file = json_to_bytes(&c["file"]);
+    let min_ok = u(&c["min_ok"]);
+    let mut problems: Vec<Value> = Vec::new();
+    // full file
+    let (full_class, out_json) = match read_container(cont, &file) {
+        Out::Ok(t) => {
+            if names_dims(&t) != c["exp"] {
+                problems.push(json!({"what": "full", "got": names_dims(&t)}));
+            }
+            let o: Vec<Value> = t
+                .iter()
+                .map(|t| json!({"name": str_to_codes(&t.name), "w": t.w, "h": t.h, "pixels": bytes_to_json(&t.px)}))
+                .collect();
+            ("ok", Value::Array(o))
+        }
+        Out::Err(e) => {
+            problems.push(json!({"what": "full", "got": format!("Err({})", e)}));
+            ("err", json!([]))
+        }
+        Out::Panic(p) => {
+            problems.push(json!({"what": "full", "got": format!("panic {}", p)}));
+            ("panic", json!([]))
+        }
+    };
+    let line = json!({"id": c["id"], "c": cont, "v": c["v"], "ok": full_class == "ok", "out": out_json});
+    // every strict prefix
+    let mut ok_prefixes = 0usize;
+    let mut err_prefixes = 0usize;
+    let mut first_ok: i64 = -1;
+    for k in 0..file.len() {
+        match read_container(cont, &file[..k]) {
+            Out::Ok(_) => {
+                ok_prefixes += 1;
+                if first_ok < 0 {
+                    first_ok = k as i64;
+                }
+                if k < min_ok {
+                    problems.push(json!({"what": "prefix", "k": k, "got": "Ok"}));
+                }
+            }
+            Out::Err(_) => err_prefixes += 1,
+            Out::Panic(p) => problems.push(json!({"what": "prefix", "k": k, "got": format!("panic {}", p)})),
+        }
+        if problems.len() > 40 {
+            break;
+        }
+    }
+    // damaged magic number: every byte of the magic, two damages each
+    let mut magic_cases = 0usize;
+    if c["magic"].as_bool().unwrap() {
+        for k in 0..4 {
+            for d in [1u8, 0x80] {
+                let mut f = file.clone();
+                f[k] ^= d;
+                magic_cases += 1;
+                match read_container(cont, &f) {
+                    Out::Err(_) => {}
+                    Out::Ok(_) => problems.push(json!({"what": "magic", "k": k, "xor": d, "got": "Ok"})),
+                    Out::Panic(p) => problems.push(json!({"what": "magic", "k": k, "xor": d, "got": format!("panic {}", p)})),
+                }
+            }
+        }
+    }
+    (
+        json!({"id": c["id"], "c": cont, "len": file.len(), "full": full_class, "ok_prefixes": ok_prefixes,
+               "err_prefixes": err_prefixes, "first_ok": first_ok, "magic_cases": magic_cases, "problems": problems}),
+        line,
+    )
+}
 
 fn main() {
     install_panic_hook();
-    usage("mvh_tex: not implemented yet");
+    let a: Vec<String> = std::env::args().collect();
+    if a.len() < 2 {
+        usage("mvh_tex replay|record|readers ...");
+    }
+    match a[1].as_str() {
+        "replay" if a.len() == 4 => replay(&a[2], &a[3]),
+        "record" if a.len() == 4 => record(&a[2], &a[3]),
+        "readers" if a.len() >= 5 => {
+            use std::io::Write;
+            let from = a.iter().position(|x| x == "--from").map(|i| a[i + 1].parse::<usize>().unwrap()).unwrap_or(0);
+            let cases = read_ndjson(&a[2]);
+            // the trace is appended to: the supervisor restarts this process after a case that died
+            let mut tf = std::fs::OpenOptions::new().create(true).append(true).open(&a[4]).expect("open trace");
+            run_isolated(&cases, from, &a[3], |_i, c| {
+                let (r, line) = readers_case(c);
+                serde_json::to_writer(&mut tf, &line).unwrap();
+                tf.write_all(b"\n").unwrap();
+                tf.flush().unwrap();
+                r
+            });
+        }
+        _ => usage("mvh_tex replay <cases> <out> | record <templates> <out> | readers <cases> <out> <trace> [--from K]"),
+    }
 }
